@@ -1,0 +1,73 @@
+//go:build verif
+
+package verifapi
+
+import "github.com/deepteams/webp/internal/lossless"
+
+// Entropy layer of internal/lossless (prefix-code tables, canonical codes,
+// code-length tokens, LZ77 copy, pixel loop, bit writer/reader), re-exported
+// for the external verification harness (suite "vp8lentropy").
+
+// EHuffmanCode mirrors lossless.HuffmanCode.
+type EHuffmanCode = lossless.HuffmanCode
+
+// ERef mirrors lossless.VerifRef.
+type ERef = lossless.VerifRef
+
+// EEntropyImage mirrors lossless.VerifEntropyImage.
+type EEntropyImage = lossless.VerifEntropyImage
+
+// EBuildHuffmanTable is lossless.BuildHuffmanTable; the error is mapped to
+// "" | "empty" | "invalid".
+func EBuildHuffmanTable(rootBits int, codeLengths []int) ([]EHuffmanCode, string) {
+	t, err := lossless.BuildHuffmanTable(rootBits, codeLengths)
+	return t, lossless.VerifTableErr(err)
+}
+
+func EBuildHuffmanTableSize(rootBits int, codeLengths []int) int {
+	return lossless.VerifBuildHuffmanTableSize(rootBits, codeLengths)
+}
+
+// EReadSymbol is lossless.ReadSymbol.
+func EReadSymbol(table []EHuffmanCode, prefetch uint32) (uint16, int) {
+	return lossless.ReadSymbol(table, prefetch)
+}
+
+func EGetNextKey(key uint32, length int) uint32 { return lossless.VerifGetNextKey(key, length) }
+
+func EDecodeSymbols(table []EHuffmanCode, rootBits int, data []byte, startBit, max int) ([]int, string) {
+	return lossless.VerifDecodeSymbols(table, rootBits, data, startBit, max)
+}
+
+func ECanonicalCodes(codeLengths []uint8) []uint16 { return lossless.VerifCanonicalCodes(codeLengths) }
+func EReverseBits(v uint32, nBits int) uint16      { return lossless.VerifReverseBits(v, nBits) }
+
+func ECodeLengthTokens(codeLengths []uint8) (codes, extras []uint8) {
+	return lossless.VerifCodeLengthTokens(codeLengths)
+}
+func ECodeLengthTree(codeLengths []uint8) []uint8 { return lossless.VerifCodeLengthTree(codeLengths) }
+func EStoreHuffmanCode(codeLengths []uint8) []byte {
+	return lossless.VerifStoreHuffmanCode(codeLengths)
+}
+
+// ECreateHuffmanTree is lossless.CreateHuffmanTree; returns the code lengths.
+func ECreateHuffmanTree(histogram []uint32, limit int) []uint8 {
+	return append([]uint8(nil), lossless.CreateHuffmanTree(histogram, limit).CodeLengths...)
+}
+
+func ECopyBlock32(data []uint32, pos, dist, length int) []uint32 {
+	return lossless.VerifCopyBlock32(data, pos, dist, length)
+}
+
+func EEncodeEntropyImage(width, height, cacheBits int, refs []ERef, argb []uint32) EEntropyImage {
+	return lossless.VerifEncodeEntropyImage(width, height, cacheBits, refs, argb)
+}
+
+func EDecodeEntropyImage(data []byte, width, height int) ([]uint32, error) {
+	return lossless.VerifDecodeEntropyImage(data, width, height)
+}
+
+func EWriteBits(vals []uint32, nbits []int) []byte { return lossless.VerifWriteBits(vals, nbits) }
+func EReadBits(data []byte, nbits []int) ([]uint32, []bool) {
+	return lossless.VerifReadBits(data, nbits)
+}
